@@ -5,16 +5,23 @@ package votingmachine
 
 //@ pred vmwf(vm *VotingMachine) = vm.logger != nil && vm.eventLoop != nil && vm.config != nil && vm.blockchain != nil && vm.auth != nil && vm.state != nil && vm.verifiedVotes != nil && cert.awf(vm.auth) && vm.auth.blockchain == vm.blockchain && vm.auth.config == vm.config && blockchain.binv(vm.blockchain) && blockchain.bmaps(vm.blockchain) && vm.blockchain.sender != nil && vm.blockchain.eventLoop != nil && vm.eventLoop.waitingEvents != nil
 
-// (Not discharged in this revision: the store invariant "every stored vote is filed under the
-// hash it votes for, was accepted by VerifyPartialCert, carries exactly one signature, and the
-// votes of one block come from pairwise distinct signers"; see the not-decided clauses of C09.)
+//@ pred vmstored(vm *VotingMachine) = forall h hotstuff.Hash, i int :: {vm.verifiedVotes[h][i]} has(vm.verifiedVotes, h) && 0 <= i && i < len(vm.verifiedVotes[h]) ==> vm.verifiedVotes[h][i].blockHash == h && vm.verifiedVotes[h][i].signature != nil && hotstuff.setlen(hotstuff.parts(vm.verifiedVotes[h][i].signature)) == 1 && cert.pcAccepted(vm.auth, vm.verifiedVotes[h][i])
+//@ pred vmdistinct(vm *VotingMachine) = forall h hotstuff.Hash, i int, j int :: {vm.verifiedVotes[h][i], vm.verifiedVotes[h][j]} has(vm.verifiedVotes, h) && 0 <= i && i < j && j < len(vm.verifiedVotes[h]) ==> vm.verifiedVotes[h][i].signer != vm.verifiedVotes[h][j].signer
+//@ pred vmdisj(vm *VotingMachine) = (forall h1 hotstuff.Hash, h2 hotstuff.Hash :: {has(vm.verifiedVotes, h1), has(vm.verifiedVotes, h2)} has(vm.verifiedVotes, h1) && has(vm.verifiedVotes, h2) && h1 != h2 && cap(vm.verifiedVotes[h1]) > 0 && cap(vm.verifiedVotes[h2]) > 0 ==> disjoint(vm.verifiedVotes[h1], vm.verifiedVotes[h2])) && (forall h hotstuff.Hash :: {has(vm.verifiedVotes, h)} has(vm.verifiedVotes, h) ==> len(vm.verifiedVotes[h]) <= cap(vm.verifiedVotes[h]) && (cap(vm.verifiedVotes[h]) == 0 || allocated(vm.verifiedVotes[h])))
+//@ pred vminv(vm *VotingMachine) = vmstored(vm) && vmdistinct(vm) && vmdisj(vm)
+// Store invariant: every stored vote is filed under the hash it votes for, was accepted by
+// VerifyPartialCert (history fact pcAccepted), carries exactly one signature, and the votes of one
+// block come from pairwise distinct signers (vmdisj: the per-block lists do not share storage).
 
 // CollectVote: the ghost trace `vcall` records the votes handed on to verification. A vote
 // whose block is known (or, once deferred, can be fetched) and is newer than the high QC is
 // handed on; a vote for an unknown block is deferred once and verifies nothing yet; votes for
 // old blocks are dropped.
 //@ func (*VotingMachine).CollectVote property C09
-//@   requires vmwf(vm) && hotstuff.genesisBlock != nil
+//@   requires vmwf(vm) && vminv(vm) && hotstuff.genesisBlock != nil
+//@   ensures [stored] vmstored(vm)
+//@   ensures [distinct] vmdistinct(vm)
+//@   ensures [disjoint] vmdisj(vm)
 //@   requires [fetch-wf] blockchain.fetchwf()
 //@   ghost at call verifyCert :: emit vcall(op1.blockHash)
 //@   ghost at go verifyCert :: emit vcall(op1.blockHash)
@@ -22,11 +29,19 @@ package votingmachine
 //@   ensures [nothing-else] tracelen(vcall) <= old(tracelen(vcall)) + 1
 //@   opt noframe true
 
-// verifyCert hands a NewViewMsg with the new certificate to the event
+// verifyCert stores a verified single-signature vote unless its signer already voted for the
+// block, keeps the store invariant, and hands a NewViewMsg with the new certificate to the event
 // loop (ghost trace `added`) only when the stored votes for the block, including this one, reach
 // the quorum.
 //@ func (*VotingMachine).verifyCert property C09
-//@   requires vmwf(vm) && block != nil && block.hash == cert.blockHash && hotstuff.genesisBlock != nil
+//@   requires vmwf(vm) && vminv(vm) && block != nil && block.hash == cert.blockHash && hotstuff.genesisBlock != nil
+//@   ensures [stored] vmstored(vm)
+//@   ensures [distinct] vmdistinct(vm)
+//@   ensures [disjoint] vmdisj(vm)
+//@   loop verifyCert$1.0 invariant [stored] vmstored(vm)
+//@   loop verifyCert$1.0 invariant [distinct] vmdistinct(vm)
+//@   loop verifyCert$1.0 invariant [disjoint] vmdisj(vm)
+//@   loop 0 invariant [new-signer] forall k int :: {votes[k]} 0 <= k && k <= rangeindex ==> votes[k].signer != cert.signer
 //@   ensures [certificate-needs-quorum] tracelen(added) > old(tracelen(added)) ==> old(len(vm.verifiedVotes[cert.blockHash])) + 1 >= hotstuff.Q(len(vm.config.replicas))
 //@   ensures [at-most-one-event] tracelen(added) <= old(tracelen(added)) + 1
 //@   opt noframe true
